@@ -56,7 +56,7 @@ def iterMargin (fn : Fn) (rnd : Rat → Rat) (acc : Rat) (h : Head) : Rat :=
   match fn.eval x3 with
   | none => 0
   | some f3 =>
-    let x4 := ridderX4 sqrtRat rnd h.x1 h.f1 h.f2 x3 f3
+    let x4 := clampX4 h.x1 h.x2 (ridderX4 sqrtRat rnd h.x1 h.f1 h.f2 x3 f3)
     match fn.eval x4 with
     | none => 0
     | some f4 =>
